@@ -18,6 +18,7 @@ No pymodbus function is replaced: only the module references `time`, `select`, `
 case runs."""
 import struct
 import contextlib
+from harness.pyutil import debug_logging
 import logging
 import socket as real_socket
 
@@ -389,7 +390,9 @@ def run_real(case):
     net = Net(cfg['transport'], clock)
     obs = []
     logging.disable(logging.CRITICAL)             # the library logs every failed transaction
-    with patched(net, clock):
+    # one case in five runs with DEBUG logging switched on (decided by the case itself, so that a replay does the same)
+    debug = (len(case['calls']) + case.get('tid0', 0) + sum(len(c['script']) for c in case['calls'])) % 5 == 0
+    with debug_logging(debug), patched(net, clock):
         client = mk_client(cfg)
         net.client = client
         client.transaction.tid = case.get('tid0', 0)
@@ -597,7 +600,7 @@ def mk_reaction(rng, kind, framer, udp, req, resp, unit, tid):
         return reply_frame(framer, r, u, t)
     full = fr(resp)
     exc = fr({'t': 'exception', 'fc': FC[req['t']], 'code': rng.choice([1, 2, 3, 4, 6, 10, 11])})
-    ounit = rng.choice([u for u in (1, 2, 5, 9, 17, 200, 247) if u != unit])
+    ounit = rng.choice([u for u in (1, 2, 5, 9, 17, 200, 247, 0, 0, 255, 255) if u != unit])      # 0 / 255 in a REPLY are foreign units like any other
     stale_tid = fr(resp, unit, (tid - rng.choice([1, 1, 2, 7, 300])) & 0xFFFF)
     stale_fc = fr(other_resp(rng, resp['t']))
     frames = [full, exc, stale_tid, stale_fc]
